@@ -392,7 +392,7 @@ func c01ViewCfg() {
 	vMerge("github.com/lightningnetwork/lnd/lnwallet.CommitWeight")
 	vMerge("github.com/lightningnetwork/lnd/lnwallet.c01RefDust")
 	vAssumption("C01 view: log representation invariant assumed, not proven inductive (I1 a removal's parent Add exists in the other log, has at most one removal and is committed on both chains; I2 heights are 0 or <= tip height; removal entries carry their parent's amount; only the opener's log has fee updates)")
-	vAssumption("C01 view: amounts and balances <= 2e12 msat, tip fee <= 2e9 sat, fee rates <= 2^32, heights < 2^48, dust limits <= 21e6 BTC; log and HTLC indexes concrete; channel type any uint64")
+	vAssumption("C01 view: amounts and balances <= 2e12 msat, tip fee <= 2e9 sat, fee rates <= 2^32, heights < 2^48, dust limits <= 21e6 BTC; log and HTLC indexes concrete; channel type one of the seven lnd negotiates (concrete case split)")
 }
 
 func c01SameHtlcs(x, y []*paymentDescriptor) bool {
@@ -524,10 +524,10 @@ func c01TypeOf(i int) uint64 {
 // swapped), and every run builds and evaluates the objects of BOTH parties, so
 // the pair of lnd objects of a scenario opened by B is the pair (B', A') of the
 // renamed scenario opened by A (up to the concrete log/HTLC counters).
-func c01View(maxN int, kinds int) {
+func c01View(maxN int, kinds int, types []int) {
 	c01ViewCfg()
 	var s c01Scn
-	s.ct = vU64("chanType")
+	s.ct = c01TypeOf(types[vChoice("type", len(types))])
 	s.opener = 0
 	s.chain = vChoice("chain", 2)
 	c01Scalars(&s)
@@ -535,11 +535,12 @@ func c01View(maxN int, kinds int) {
 	c01CheckView(&s)
 }
 
-// VerifC01View1: up to 1 update per side (Add/Settle/Fail/FeeUpdate/MalformedFail).
-func VerifC01View1() { c01View(1, c01NKinds) }
+// VerifC01View1: up to 1 update per side (Add/Settle/Fail/FeeUpdate/MalformedFail), all seven channel types.
+func VerifC01View1() { c01View(1, c01NKinds, []int{0, 1, 2, 3, 4, 5, 6}) }
 
-// VerifC01View: up to 2 updates per side (Add/Settle/Fail/FeeUpdate).
-func VerifC01View() { c01View(2, c01KFeeUpdate+1) }
+// VerifC01View: up to 2 updates per side (Add/Settle/Fail/FeeUpdate); legacy,
+// zero-fee-htlc anchors, taproot final.
+func VerifC01View() { c01View(2, c01KFeeUpdate+1, []int{0, 3, 6}) }
 
 // VerifC01ViewDeep: up to 3 updates per side, incl. MalformedFail.
-func VerifC01ViewDeep() { c01View(3, c01NKinds) }
+func VerifC01ViewDeep() { c01View(3, c01NKinds, []int{0, 1, 2, 3, 4, 5, 6}) }
